@@ -359,15 +359,51 @@ def exactGradient (P : Mat N N K) (Y : Mat N D K) : Mat N D K := exactGradientOf
 /-- the same formula over the true squared distances -/
 def exactGradientSpec (P : Mat N N K) (Y : Mat N D K) : Mat N D K := exactGradientOf (sqEuclid Y) P Y
 
-/-- `computeGradient(…, Y, N, D, dC, theta)` on flat buffers.  The quadtree and `computeEdgeForces` address `Y` and
-    `pos_f` with stride `QT_NO_DIMS`, `computeGradient` addresses `neg_f` with stride `D` and combines `N*D` cells. -/
-def bhGradient (fuel : Nat) (eps θ : K) (N D : Nat) (c : Csr K) (Y : Array K) : Except Err (Array K) := do
+/-- `QuadTree(Y, N)` reads `Y[n*QT_NO_DIMS + d]` -/
+def bhPoints (N : Nat) (Y : Array K) : Except Err (List (K × K)) :=
   let q := Gen.TsneOps.qtNoDims
-  -- QuadTree(Y, N) reads Y[n*QT_NO_DIMS + d]
-  let pts ← (List.range N).mapM (fun n => do
+  (List.range N).mapM (fun n => do
     let x ← rd Y (n * q) "Y[n*QT_NO_DIMS]"
     let y ← rd Y (n * q + 1) "Y[n*QT_NO_DIMS+1]"
     pure (x, y))
+
+/-- `computeEdgeForces`, the body for one stored element `(n, i)`, `row_P[n] ≤ i < row_P[n+1]` -/
+def edgeStep (c : Csr K) (parr : Array (K × K)) (pf : Array K) (e : Nat × Nat) : Except Err (Array K) := do
+  let q := Gen.TsneOps.qtNoDims
+  let (n, i) := e
+  let col ← rd c.colP i "col_P[i]"
+  let v ← rd c.valP i "val_P[i]"
+  let a ← rd parr n "Y[ind1]"
+  let b ← rd parr col "Y[ind2]"
+  let buff : K × K := (a.1 - b.1, a.2 - b.2)
+  let w := v / (1 + QuadTree.sqNorm buff)
+  let p0 ← rd pf (n * q) "pos_f[ind1]"
+  let pf ← wr pf (n * q) (p0 + w * buff.1) "pos_f[ind1]"
+  let p1 ← rd pf (n * q + 1) "pos_f[ind1+1]"
+  wr pf (n * q + 1) (p1 + w * buff.2) "pos_f[ind1+1]"
+
+/-- `computeNonEdgeForces(n, theta, neg_f + n*D, &sum_Q)`: one running `sum_Q` for all `n` -/
+def nonEdgeStep (data : Nat → K × K) (θ : K) (D : Nat) (tree : QuadTree.Tree K) (st : Array K × K) (n : Nat) :
+    Except Err (Array K × K) := do
+  let (nf, sq) := st
+  let n0 ← rd nf (n * D) "neg_f[n*D]"
+  let n1 ← rd nf (n * D + 1) "neg_f[n*D+1]"
+  let r := QuadTree.forces data θ n tree ((n0, n1), sq)
+  let nf ← wr nf (n * D) r.1.1 "neg_f[n*D]"
+  let nf ← wr nf (n * D + 1) r.1.2 "neg_f[n*D+1]"
+  pure (nf, r.2)
+
+/-- `dC[i] = pos_f[i] - neg_f[i] / sum_Q` -/
+def combineStep (posF negF : Array K) (sumQ : K) (dC : Array K) (i : Nat) : Except Err (Array K) := do
+  let p ← rd posF i "pos_f[i]"
+  let g ← rd negF i "neg_f[i]"
+  wr dC i (p - g / sumQ) "dC[i]"
+
+/-- `computeGradient(…, Y, N, D, dC, theta)` on flat buffers.  The quadtree and `computeEdgeForces` address `Y` and
+    `pos_f` with stride `QT_NO_DIMS`, `computeGradient` addresses `neg_f` with stride `D` and combines `N*D` cells. -/
+def bhGradient (fuel : Nat) (eps θ : K) (N D : Nat) (c : Csr K) (Y : Array K) : Except Err (Array K) := do
+  -- QuadTree(Y, N) reads Y[n*QT_NO_DIMS + d]
+  let pts ← bhPoints N Y
   let parr := pts.toArray
   let data : Nat → K × K := fun i => parr.getD i (0, 0)
   let root := QuadTree.rootCell eps pts
@@ -376,32 +412,11 @@ def bhGradient (fuel : Nat) (eps θ : K) (N D : Nat) (c : Csr K) (Y : Array K) :
   | some tree =>
     -- computeEdgeForces
     let es ← entries N c
-    let posF ← es.foldlM (fun (pf : Array K) (e : Nat × Nat) => do
-      let (n, i) := e
-      let col ← rd c.colP i "col_P[i]"
-      let v ← rd c.valP i "val_P[i]"
-      let a ← rd parr n "Y[ind1]"
-      let b ← rd parr col "Y[ind2]"
-      let buff : K × K := (a.1 - b.1, a.2 - b.2)
-      let w := v / (1 + QuadTree.sqNorm buff)
-      let p0 ← rd pf (n * q) "pos_f[ind1]"
-      let pf ← wr pf (n * q) (p0 + w * buff.1) "pos_f[ind1]"
-      let p1 ← rd pf (n * q + 1) "pos_f[ind1+1]"
-      wr pf (n * q + 1) (p1 + w * buff.2) "pos_f[ind1+1]") (Array.replicate (N * D) 0)
+    let posF ← es.foldlM (edgeStep c parr) (Array.replicate (N * D) 0)
     -- computeNonEdgeForces(n, theta, neg_f + n*D, &sum_Q): one running sum_Q for all n
-    let (negF, sumQ) ← (List.range N).foldlM (fun (st : Array K × K) n => do
-      let (nf, sq) := st
-      let n0 ← rd nf (n * D) "neg_f[n*D]"
-      let n1 ← rd nf (n * D + 1) "neg_f[n*D+1]"
-      let r := QuadTree.forces data θ n tree ((n0, n1), sq)
-      let nf ← wr nf (n * D) r.1.1 "neg_f[n*D]"
-      let nf ← wr nf (n * D + 1) r.1.2 "neg_f[n*D+1]"
-      pure (nf, r.2)) (Array.replicate (N * D) 0, 0)
+    let (negF, sumQ) ← (List.range N).foldlM (nonEdgeStep data θ D tree) (Array.replicate (N * D) 0, 0)
     -- dC[i] = pos_f[i] - neg_f[i] / sum_Q
-    (List.range (N * D)).foldlM (fun (dC : Array K) i => do
-      let p ← rd posF i "pos_f[i]"
-      let g ← rd negF i "neg_f[i]"
-      wr dC i (p - g / sumQ) "dC[i]") (Array.replicate (N * D) 0)
+    (List.range (N * D)).foldlM (combineStep posF negF sumQ) (Array.replicate (N * D) 0)
 
 end Grad
 
@@ -524,6 +539,43 @@ def vpBuild (dist : List K → List K → K) (pick : Nat → Nat → Nat) :
       -- swap(items[lower], items[i])
       let pr := vpSwap x rest (pick draw (cnt - 1))
       vpNodeOf dist (vpBuild dist pick fuel) base draw cnt pr.1 pr.2
+
+/-! #### the same build with EVERY outcome of `std::nth_element`
+`nth draw vp tail k` is the tail of the segment as the `draw`-th call of `std::nth_element(items+lower+1, items+median,
+items+upper, DistanceComparator(items[lower]))` leaves it (`k = median − lower − 1`); its contract (`NthOK`,
+Proofs/TsneVpBuildNth.lean: a permutation whose position `k` holds an element not nearer to the vantage point than the
+ones before and not farther than the ones after) is all the theorems use.  `vpBuild` is the instance `sortNth`. -/
+
+/-- the node built from the vantage point `vp` and the arranged tail `arr` of its segment (`cnt` items in all) -/
+def vpNodeArr (dist : List K → List K → K)
+    (recur : Nat → Nat → List (Nat × List K) → VpNode K × List (Nat × List K) × Nat)
+    (base draw cnt : Nat) (vp : Nat × List K) (arr : List (Nat × List K)) :
+    VpNode K × List (Nat × List K) × Nat :=
+  let medRel := cnt / 2 - 1      -- position of `median` inside the tail
+  let thr := match arr[medRel]? with
+    | some m => dist vp.2 m.2
+    | none => 0
+  let L := recur (base + 1) (draw + 1) (arr.take medRel)
+  let R := recur (base + 1 + medRel) L.2.2 (arr.drop medRel)
+  (.node base thr L.1 R.1, vp :: (L.2.1 ++ R.2.1), R.2.2)
+
+def vpBuildWith (dist : List K → List K → K) (pick : Nat → Nat → Nat)
+    (nth : Nat → Nat × List K → List (Nat × List K) → Nat → List (Nat × List K)) :
+    Nat → Nat → Nat → List (Nat × List K) → VpNode K × List (Nat × List K) × Nat
+  | 0, _, draw, seg => (.nil, seg, draw)
+  | fuel + 1, base, draw, seg =>
+    match seg with
+    | [] => (.nil, [], draw)
+    | [x] => (.node base 0 .nil .nil, [x], draw)
+    | x :: rest =>
+      let cnt := rest.length + 1
+      let pr := vpSwap x rest (pick draw (cnt - 1))
+      vpNodeArr dist (vpBuildWith dist pick nth fuel) base draw cnt pr.1 (nth draw pr.1 pr.2 (cnt / 2 - 1))
+
+/-- the outcome `vpBuild` uses: a stable sort of the tail by distance to the vantage point -/
+def sortNth (dist : List K → List K → K) :
+    Nat → Nat × List K → List (Nat × List K) → Nat → List (Nat × List K) :=
+  fun _ vp tail _ => sortBy (fun a b => decide (dist vp.2 a.2 ≤ dist vp.2 b.2)) tail
 
 end Vp
 
